@@ -14,6 +14,7 @@ import NemoVerif.Lemmas.GroupExpandAwait
 import NemoVerif.Lemmas.GroupExpandWhen
 import NemoVerif.Lemmas.GroupFlowVM
 import NemoVerif.Lemmas.GroupCoreVMCompose
+import NemoVerif.Lemmas.GroupCoreVMTemplate
 namespace NemoVerif.C07
 open NemoVerif NemoVerif.Dnf NemoVerif.GroupExpand NemoVerif.GroupVM
 
@@ -230,6 +231,27 @@ theorem groupvm_is_corevm_partial (fuel : Nat) (s : CoreVM.VM) (f : CoreIndex.FU
     ∃ s' i', CoreVM.runMembers (fuel + 3) f (CoreVM.matchingU e us ms) s = .ok () s' ∧ CoreVM.FlowAt s' f i' x cfg ∧ s'.r = s.r ∧
       CoreVM.hview i' = others ++ CoreVM.renderU (pe + 1) us (p1Members e n [] ms) :=
   CoreVM.and_clause_phase1 fuel s f i x cfg l mu pe n e others us ms F hown C S hlen hnd hoth hv
+
+/-- The same with the program hypotheses discharged for what the mirrored generator emits: the flow configuration contains
+    `expandAnd c k` (the and-template of `_expand_match_element` for a clause of at least two atoms), translated element by element,
+    at some offset `B`, and its label table resolves the end label.  Then phase 1 of `GroupVM` with `need = |c|` is what CoreVM does
+    on the member heads (match positions `B + 3 + 3j`), for every clause `c`. -/
+theorem groupvm_is_corevm_partial_expandAnd (fuel : Nat) (s : CoreVM.VM) (f : CoreIndex.FUid) (i : CoreIndex.Inst) (x : CoreVM.InstX)
+    (cfg : CoreVM.FlowCfg) (spec : Nat → CoreVM.Spec) (B k e : Nat) (c : List Nat) (h2 : 2 ≤ c.length)
+    (others : List CoreVM.HCore) (uids : List CoreIndex.HUid) (ms : List (Nat × MLoc))
+    (F : CoreVM.FlowAt s f i x cfg) (hown : x.ctxOwner = none)
+    (hc : CoreVM.ContainsAt cfg spec B (expandAnd c k).1)
+    (hl : cfg.label (CoreVM.nmOf (k + 2)) = some (B + 2 + 3 * c.length + 4))
+    (hu : uids.length = c.length) (hlen : uids.length = ms.length)
+    (hnd : (others.map (·.1) ++ (uids.zipIdx.map fun p => (p.1, B + 3 + 3 * p.2)).map (·.1)).Nodup)
+    (hoth : others.filter (CoreVM.liveAt (B + 2 + 3 * c.length + 4 + 1)) = [])
+    (hv : CoreVM.hview i = others ++ CoreVM.renderU (B + 2 + 3 * c.length + 4 + 1) (uids.zipIdx.map fun p => (p.1, B + 3 + 3 * p.2)) ms) :
+    ∃ s' i', CoreVM.runMembers (fuel + 3) f (CoreVM.matchingU e (uids.zipIdx.map fun p => (p.1, B + 3 + 3 * p.2)) ms) s = .ok () s' ∧
+      CoreVM.FlowAt s' f i' x cfg ∧ s'.r = s.r ∧
+      CoreVM.hview i' = others ++ CoreVM.renderU (B + 2 + 3 * c.length + 4 + 1) (uids.zipIdx.map fun p => (p.1, B + 3 + 3 * p.2))
+        (p1Members e c.length [] ms) := by
+  obtain ⟨C, S⟩ := CoreVM.shapes_of_expandAnd cfg spec B k c h2 uids hu hc hl
+  exact CoreVM.and_clause_phase1 fuel s f i x cfg _ _ _ c.length e others _ ms F hown C S (by simpa using hlen) hnd hoth hv
 
 /-- **groupvm_is_corevm_partial (or-group of single atoms, phase 1).**  The same for the branch heads of an or-group whose clauses
     are single atoms (any number of branches): the heads that wait on `match e` end MERGING on the or-level `MergeHeads`, exactly
@@ -521,6 +543,18 @@ example : ∃ s' i', CoreVM.runMembers 4 "m" (CoreVM.matchingU 0 [("h1", 4), ("h
     rfl (by decide) rfl rfl
 
 
+
+-- non-vacuity of `groupvm_is_corevm_partial_expandAnd`: a flow configuration built from the mirror's own output for the clause [0, 1]
+def exCfgGen : CoreVM.FlowCfg :=
+  { exCfgAnd with
+    elements := (CoreVM.Prim.other :: (expandAnd [0, 1] 0).1.map (CoreVM.toCore fun a => exSpec (if a = 0 then "E0" else "E1"))).toArray,
+    labels := [(CoreVM.nmOf 3, 3), (CoreVM.nmOf 4, 6), (CoreVM.nmOf 1, 9), (CoreVM.nmOf 2, 13)] }
+example : CoreVM.ContainsAt exCfgGen (fun a => exSpec (if a = 0 then "E0" else "E1")) 1 (expandAnd [0, 1] 0).1 ∧
+    exCfgGen.label (CoreVM.nmOf (0 + 2)) = some (1 + 2 + 3 * [0, 1].length + 4) := by
+  refine ⟨⟨by decide, ?_⟩, by decide⟩
+  intro j hj
+  have : j < 16 := hj
+  rcases j with _|_|_|_|_|_|_|_|_|_|_|_|_|_|_|_|j <;> first | rfl | omega
 -- non-vacuity of `groupvm_is_corevm_partial_or`: both branch heads of `match E0() or E1()`, event E1
 example : ∃ s' i', CoreVM.runMembers 3 "m" (CoreVM.matchingB 1 [("h1", 4), ("h2", 7)] [.single 0, .single 1]) (exVM exCfgOr) = .ok () s' ∧
     CoreVM.FlowAt s' "m" i' exX exCfgOr ∧ s'.r = (exVM exCfgOr).r ∧
